@@ -45,7 +45,7 @@ ANCHORS = {
 }
 
 PURE_CALLS = {'len', 'max', 'min', 'abs', 'float', 'int', 'fmax', 'fmin', 'fabs', 'sqrt', 'isinstance', 'range',
-              'bool', 'tuple'}
+              'bool', 'tuple', 'slice'}
 MAX_HELPER_STMTS = 14
 
 
@@ -536,6 +536,12 @@ def _orient(block: List[ast.stmt], in_loop: bool, top: bool, loop_body: bool = F
                 new = _fix(ast.If(test=pos if pos is not None else _negate(st.test), body=rest, orelse=[]), st)
                 block = block[:i] + [new]
                 continue
+            # `if c: A; continue` REST -> `if c: A else: REST`
+            if in_loop and loop_body and not st.orelse and len(st.body) > 1 and isinstance(st.body[-1], ast.Continue) and rest \
+                    and not any(isinstance(n, (ast.Continue, ast.Break)) for b_ in st.body[:-1] for n in ast.walk(b_)):
+                new = _fix(ast.If(test=st.test, body=st.body[:-1], orelse=rest), st)
+                block = block[:i] + [new]
+                continue
             # an early `return` followed by code that ends the function is a two-way branch: spell it as one
             if not st.orelse and rest and _ends_function(st.body) and _has_return(st.body) \
                     and _ends_function(rest) and not in_loop_leak(st.body):
@@ -618,6 +624,26 @@ class _CmpDir(ast.NodeTransformer):
         if len(node.ops) == 1 and isinstance(node.ops[0], (ast.Gt, ast.GtE)):
             op = ast.Lt() if isinstance(node.ops[0], ast.Gt) else ast.LtE()
             return _fix(ast.Compare(left=node.comparators[0], ops=[op], comparators=[node.left]), node)
+        return node
+
+
+class _SliceObjects(ast.NodeTransformer):
+    """`x[slice(a, b)]` is `x[a:b]`"""
+    def visit_Subscript(self, node: ast.Subscript):
+        self.generic_visit(node)
+        sl = node.slice
+        if isinstance(sl, ast.Call) and isinstance(sl.func, ast.Name) and sl.func.id == 'slice' and not sl.keywords \
+                and 1 <= len(sl.args) <= 3:
+            a = list(sl.args)
+            none = lambda e: None if (isinstance(e, ast.Constant) and e.value is None) else e
+            if len(a) == 1:
+                lo, hi, st = None, none(a[0]), None
+            else:
+                lo, hi, st = none(a[0]), none(a[1]), none(a[2]) if len(a) == 3 else None
+            node.slice = _fix(ast.Slice(lower=lo, upper=hi, step=st), sl)
+        return node
+
+    def visit_FunctionDef(self, node):
         return node
 
 
@@ -1292,7 +1318,7 @@ def _inline_temps(fn: ast.FunctionDef) -> bool:
         while k < len(block):
             s = block[k]
             if isinstance(s, ast.Assign) and len(s.targets) == 1 and isinstance(s.targets[0], ast.Name) \
-                    and s.targets[0].id not in excluded and not s.targets[0].id.startswith('N_'):
+                    and s.targets[0].id not in excluded and not (s.targets[0].id.startswith('N_') and '__inl' not in s.targets[0].id):
                 v = s.targets[0].id
                 inl = _DefInliner(v, s.value)
                 good = inl.check(block, k, cont) and (v not in modified or inl.total == 1)
@@ -2216,9 +2242,12 @@ class _HelperInliner:
             return None
         params = [p.arg for p in a.args]
         bound: Dict[str, ast.expr] = {}
-        if len(call.args) > len(params):
+        call_args = list(call.args)
+        if getattr(call, '_receiver', None) is not None:
+            call_args = [call._receiver] + call_args          # `self.method(..)`: the receiver is the first argument
+        if len(call_args) > len(params):
             return None
-        for p, x in zip(params, call.args):
+        for p, x in zip(params, call_args):
             bound[p] = x
         for k in call.keywords:
             if k.arg not in params or k.arg in bound:
@@ -2278,6 +2307,25 @@ class _HelperInliner:
 
             def visit_FunctionDef(self, node):
                 return node
+
+            def _aliases(self, node):
+                # names bound by an import are locals of the helper like any other
+                for al in node.names:
+                    local = al.asname or al.name.split('.')[0]
+                    if local in ren:
+                        al.asname = ren[local]
+                return node
+
+            def visit_Import(self, node):
+                return self._aliases(node)
+
+            def visit_ImportFrom(self, node):
+                return self._aliases(node)
+
+            def visit_ExceptHandler(self, node):
+                if node.name and node.name in ren:
+                    node.name = ren[node.name]
+                return self.generic_visit(node)
         mod = RN().visit(mod)
         # all statements report at the call site's line (the helper body's own lines belong to another function)
         for n in ast.walk(mod):
@@ -2292,11 +2340,11 @@ class _HelperInliner:
         return body3 or [_fix(ast.Pass(), call)]
 
 
-def _helper_ok(h: ast.FunctionDef, name: str) -> bool:
+def _helper_ok(h: ast.FunctionDef, name: str, limit: int = MAX_HELPER_STMTS) -> bool:
     if name in ANCHORS or h.decorator_list:
         return False
     n_stmts = sum(1 for n in ast.walk(h) if isinstance(n, ast.stmt)) - 1
-    if n_stmts > MAX_HELPER_STMTS:
+    if n_stmts > limit:
         return False
     for n in ast.walk(h):
         if isinstance(n, ast.Call) and isinstance(n.func, ast.Name) and n.func.id == h.name:
@@ -2344,7 +2392,8 @@ def _module_bindings(tree: ast.Module) -> Dict[str, str]:
 
 
 def normalize_function(fn: ast.FunctionDef, module_helpers: Dict[str, ast.FunctionDef],
-                       outer_nested: Optional[Dict[str, ast.FunctionDef]] = None):
+                       outer_nested: Optional[Dict[str, ast.FunctionDef]] = None,
+                       class_helpers: Optional[Dict[str, ast.FunctionDef]] = None):
     """Normalise one function in place (nested functions are normalised first and then inlined)."""
     nested: Dict[str, ast.FunctionDef] = {}
     for st in ast.walk(fn):
@@ -2375,8 +2424,17 @@ def normalize_function(fn: ast.FunctionDef, module_helpers: Dict[str, ast.Functi
         if isinstance(n, ast.Call) and isinstance(n.func, ast.Name) and n.func.id in nested:
             call_uses[n.func.id] = call_uses.get(n.func.id, 0) + 1
 
+    class_helpers = class_helpers or {}
+    self_name = fn.args.args[0].arg if fn.args.args else None
+
     def resolver(call: ast.Call, _nested):
         f = call.func
+        if isinstance(f, ast.Attribute) and isinstance(f.value, ast.Name) and f.value.id == self_name \
+                and f.attr in class_helpers and class_helpers[f.attr] is not fn and self_name not in (fn_locals - {self_name}):
+            # a private method of the same class, called on the same object
+            h = class_helpers[f.attr]
+            call._receiver = ast.Name(id=self_name, ctx=ast.Load())
+            return h
         if not isinstance(f, ast.Name):
             return None
         if f.id in nested:
@@ -2458,6 +2516,8 @@ def normalize_function(fn: ast.FunctionDef, module_helpers: Dict[str, ast.Functi
             _invalidate()
             if not ch:
                 break
+        for st in fn.body:
+            _SliceObjects().visit(st)
         _order_block(fn.body)
         ast.fix_missing_locations(fn)
         cur = ast.dump(fn)
@@ -2501,12 +2561,34 @@ def normalize_module(tree: ast.Module, imported_helpers: Optional[Dict[str, ast.
     helpers = dict(imported_helpers or {})
     helpers.update(_module_helpers(tree, backend))
 
+    def private_methods(cls: ast.ClassDef) -> Dict[str, ast.FunctionDef]:
+        out = {}
+        for m in cls.body:
+            if isinstance(m, ast.FunctionDef) and m.name.startswith('_') and not m.name.startswith('__') \
+                    and _helper_ok(m, m.name, 70) and m.args.args and not m.args.vararg and not m.args.kwarg:
+                # not recursive (also not through another private method: checked by the bounded rounds of inlining)
+                out[m.name] = m
+        return out
+
     def visit(block):
         for st in block:
             if isinstance(st, ast.FunctionDef):
                 normalize_function(st, {k: v for k, v in helpers.items() if v is not st})
             elif isinstance(st, ast.ClassDef):
-                visit(st.body)
+                pm = private_methods(st)
+                # helpers first (so that a private method used by another private method is already in normal form)
+                for m in st.body:
+                    if isinstance(m, ast.FunctionDef) and m.name in pm:
+                        normalize_function(m, dict(helpers), None, {k: v for k, v in pm.items() if v is not m})
+                for m in st.body:
+                    if isinstance(m, ast.FunctionDef) and m.name not in pm:
+                        normalize_function(m, dict(helpers), None, pm)
+                    elif isinstance(m, ast.ClassDef):
+                        visit([m])
+                # private methods that are no longer referenced anywhere in the module are gone
+                refs = {n.attr for n in ast.walk(tree) if isinstance(n, ast.Attribute)}
+                st.body[:] = [m for m in st.body if not (isinstance(m, ast.FunctionDef) and m.name in pm and m.name not in refs)] \
+                    or [ast.Pass()]
             elif isinstance(st, (ast.If, ast.Try)):
                 for b in _blocks_of(st):
                     visit(b)
